@@ -480,13 +480,9 @@ impl Model {
                 apply_infix(op, a, b)
             }
             R::NotInfix(op, l, rr) => {
-                let a = self.eval(l)?;
-                let b = self.eval(rr)?;
-                let v = if let Some((id, ret)) = self.loggers.infix.get(op).cloned() {
-                    self.logger(id, vec![a, b], &ret)?
-                } else {
-                    apply_infix(op, a, b)?
-                };
+                // `x not OP y` is not(x OP y): whatever OP is at this moment (built-in, overridden,
+                // assignment, user SETTER) is evaluated exactly as in `x OP y`
+                let v = self.eval(&R::Infix(op.clone(), l.clone(), rr.clone()))?;
                 match v {
                     V::Bool(x) => Ok(V::Bool(!x)),
                     _ => Err(err("not-on-non-bool")),
